@@ -1,266 +1,347 @@
-"""C11 — money converter yields the right rate for every update history and date."""
+"""C11 — money converter yields the right rate for every update history and date.
+
+The converter is only ever built and changed through its own constructor and update(); what it answers is read
+through get_rate / __call__.  Nothing here names how the rates are stored."""
 from __future__ import annotations
 
-import ast
+from contextlib import contextmanager
 
 from ..contracts import *  # noqa: F401,F403
 from ..effects import CallGraph, check_ownership, inventory
-from ..loader import AnalysisError, src_of
-from ..models import DictV
+from ..interp import Frame
+from ..loader import AnalysisError
+from ..models import DictV, NativeV
 from ..report import Result
 from .c09 import exact_rate
 
-TECHNIQUE = ("writer/reader agreement rules on validity kinds and key types; abstract interpretation of "
-             "get_rate/_get_rate/__call__ with a currency-dimension domain; validate-before-mutate on update; "
-             "ownership of the rate table")
+TECHNIQUE = ("abstract interpretation of update histories: converters are built by the evaluated constructor and "
+             "update() calls (every validity kind and spelling, symbolic periods / amounts / multiples), then "
+             "get_rate / __call__ are evaluated for dates inside and outside the stored periods and compared with "
+             "a reference history model; rejected updates leave the evaluated object graph unchanged; ownership of "
+             "the converter's fields")
 
-KINDS = {"NoneType": "None", "int": "year", "tuple": "(year, month)", "date": "date"}
-
-
-def mk_converter(c: Ctx, prog, vtype, dflt=None):
-    ci = prog.cls("MoneyConverter")
-    c.new_type("M", **FLAVORS["money"])
-    base = c.unit("base", "M")
-    tbl = DictV(tag="_rate_dict")
-    tbl.rate_table = {}
-    tbl.base_currency = base
-    conv = ObjV(ci, "conv", {
-        "_base_currency": base, "_rate_dict": tbl,
-        "_type_of_validity": NONE if vtype is None else TypeV(vtype),
-        "_get_dflt_effective_date": _date("dfltdate", fn=True)})
-    return conv, base
+KINDS = ("None", "year", "month", "date", "text")
 
 
-def _date(tag, fn=False):
-    o = OpaqueV(("fn:" if fn else "") + tag)
-    o.kinds = {"date"} if not fn else set()
-    return o
+def _k(name):
+    return Num(RF.atom(("k", name)), "int")
 
 
-def validity_repr(v) -> str:
+@contextmanager
+def frame(I, prog):
+    I.frames.append(Frame(None, prog.modules["quantity.money"] if "quantity.money" in prog.modules
+                          else prog.modules["quantity"], None, {}))
+    try:
+        yield
+    finally:
+        I.frames.pop()
+
+
+class Scenario:
+    """One converter with a reference model of its update history."""
+
+    def __init__(self, c: Ctx, prog, dflt="callable", like=None):
+        self.c, self.prog, self.st, self.m, self.I = c, prog, c.st, c.m, c.m.I
+        c.m.text_templates = True
+        if like is not None:
+            self.cur = like.cur         # a second converter over the same currencies
+        else:
+            c.new_type("M", **FLAVORS["money"])
+            self.cur = {n: c.unit(n, "M") for n in ("base", "ca", "cb", "cn")}
+            names = list(self.cur)
+            for i, a in enumerate(names):
+                for b in names[i + 1:]:
+                    c.st.distinct_units(a, b)
+            self.st.symbol_units = {"code_ca": self.cur["ca"], "code_cb": self.cur["cb"]}
+        self.dflt_date = [None]
+        self.dflt_calls = []
+        self.hist = []          # (period, currency name, ta RF, um RF) in update order
+        self.n_up = 0
+        args = [self.cur["base"]]
+        if dflt == "callable":
+            def configured(a, k, n):
+                self.dflt_calls.append(1)
+                if self.dflt_date[0] is None:
+                    raise AnalysisError("C11 scenario: default date requested but not configured")
+                return self.dflt_date[0]
+            args.append(NativeV(configured, "configured default date"))
+        with frame(self.I, prog):
+            try:
+                self.conv = self.m.instantiate(prog.cls("MoneyConverter"), args, {}, None)
+            except AbsRaise:
+                raise AnalysisError("C11: MoneyConverter(base currency[, callable]) raises")
+        self.st.scn = self
+
+    # ---- periods
+    def validity(self, kind, tag):
+        """-> (value handed to update, period it denotes as (year, month, day) with None = unrestricted)"""
+        Y, Mo, D = _k(tag + ".Y"), _k(tag + ".M"), _k(tag + ".D")
+        if kind == "None":
+            return NONE, (None, None, None)
+        if kind == "year":
+            return Y, (Y, None, None)
+        if kind == "month":
+            return TupleV([Y, Mo]), (Y, Mo, None)
+        if kind == "date":
+            return DateV(tag, Y, Mo, D), (Y, Mo, D)
+        if kind == "text":
+            s = StrV(None, tag)
+            return s, s         # the period depends on how many dash-separated fields the text has (decided on the path)
+        if kind == "float":
+            return self.c.num(tag + ".x", "float"), None
+        raise AnalysisError(kind)
+
+    def shifted(self, kind, tag, base_tag, what):
+        """A validity of the same kind as `base_tag`'s, for another period: what = 'next' (last component + 1) or
+        'year' (another year, same remaining components)."""
+        Y, Mo, D = _k(base_tag + ".Y"), _k(base_tag + ".M"), _k(base_tag + ".D")
+        one = Num(RF.const(1), "int")
+        add = lambda x: Num(x.rf + one.rf, "int")
+        if what == "year":
+            Y = add(Y)
+        elif kind == "year":
+            Y = add(Y)
+        elif kind == "month":
+            Mo = add(Mo)
+        else:
+            D = add(D)
+        if kind == "year":
+            return Y, (Y, None, None)
+        if kind == "month":
+            return TupleV([Y, Mo]), (Y, Mo, None)
+        return DateV(tag, Y, Mo, D), (Y, Mo, D)
+
+    def text_period(self, s):
+        nf = getattr(s, "n_fields", None)
+        if nf is None or nf[0] != "-" or not 1 <= nf[1] <= 3:
+            raise Infeasible
+        comps = [_k(f"{s.tag}.f{i}") for i in range(nf[1])]
+        return tuple(comps + [None] * (3 - len(comps)))
+
+    # ---- history
+    def update(self, validity, period, specs, spec_as="Currency", must_accept=True, tag=""):
+        """specs: currency names; amounts / multiples are fresh symbols.  Returns False when update() raised."""
+        self.n_up += 1
+        rows = []
+        spec_vals = []
+        for n in specs:
+            ta, um = self.c.num(f"ta{tag}{self.n_up}_{n}", "dec"), self.c.num(f"um{tag}{self.n_up}_{n}", "int")
+            curv = self.cur[n] if spec_as == "Currency" else StrV(None, "code_" + n)
+            spec_vals.append(TupleV([curv, ta, um]))
+            rows.append((n, ta.rf, um.rf))
+        up = self.prog.method("MoneyConverter", "update")
+        with frame(self.I, self.prog):
+            try:
+                self.I.call_function(up, [self.conv, validity, ListV(spec_vals)], {})
+            except AbsRaise:
+                if must_accept:
+                    raise Infeasible        # invalid period / amount on this path: not part of the history
+                return False
+        if isinstance(period, StrV):
+            period = self.text_period(period)
+        for n, ta, um in rows:
+            self.hist.append((period, n, ta, um))
+        return True
+
+    # ---- dates
+    def date_in(self, period, tag="eff", bump=None):
+        """A date inside `period` (bump=None) or outside it: bump='next' moves the last restricted component,
+        bump='year' the year."""
+        comps = list(period)
+        last = max((i for i, x in enumerate(comps) if x is not None), default=None)
+        if bump is not None:
+            if last is None:
+                raise AnalysisError("an unrestricted period has no outside")
+            i = 0 if bump == "year" else last
+            comps[i] = Num(comps[i].rf + RF.const(1), "int")
+        names = ("year", "month", "day")
+        vals = [x if x is not None else _k(f"{tag}.{names[i]}") for i, x in enumerate(comps)]
+        return DateV(tag, *vals)
+
+    def contains(self, period, d: DateV):
+        for p, x in zip(period, (d.y, d.m, d.d)):
+            if p is None:
+                continue
+            diff = self.st.norm(p.rf - x.rf)
+            if diff.is_const():
+                if diff.const_value() != 0:
+                    return False
+                continue
+            t = known_truth(self.st, CmpV("==", p, x))
+            if t is None:
+                raise AnalysisError(f"C11 scenario: cannot tell whether {x.rf!r} is in period component {p.rf!r}")
+            if not t:
+                return False
+        return True
+
+    def r_of(self, name, d: DateV):
+        """Reference: rate of currency `name` from the base currency effective at d (None = no entry)."""
+        if name == "base":
+            return RF.const(1)
+        for period, n, ta, um in reversed(self.hist):
+            if n == name and self.contains(period, d):
+                return ta / um
+        return None
+
+    def name_of(self, u: UnitV):
+        for n, v in self.cur.items():
+            if self.st.same_unit(v.uid, u.uid) is True:
+                return n
+        return None
+
+
+def reader_setup_for(prog, kind, pair, where, how, spec_as="Currency", call=False):
+    """where: in / next / year; how: explicit / default"""
+    def setup(c):
+        s = Scenario(c, prog)
+        val, period = s.validity(kind, "p")
+        s.update(val, period, ["ca", "cb"], spec_as=spec_as)
+        period = s.hist[-1][0]
+        if where != "in" and all(p is None for p in period):
+            raise Infeasible
+        bump = None if where == "in" else where
+        if bump == "year" and period[1] is None:
+            raise Infeasible        # a year period has no "same month of another year"
+        s.eff = s.date_in(period, bump=bump)
+        s.want_pair = pair
+        s.explicit_date = how == "explicit"
+        if how == "explicit":
+            # the configured callable would report a date outside the period: it must not be consulted
+            s.dflt_date[0] = s.date_in(period, tag="dflt", bump="next") if any(p is not None for p in period) else None
+            date_args = [s.eff]
+        else:
+            s.dflt_date[0] = s.eff
+            date_args = []
+        if call:
+            s.money = c.qty("money", s.cur[pair[0]])
+            return [s.conv, s.money, s.cur[pair[1]]] + date_args, {}
+        return [s.conv, s.cur[pair[0]], s.cur[pair[1]]] + date_args, {}
+    return setup
+
+
+def snapshot(st, v, depth=0, seen=None):
+    """Structure of an evaluated object graph, for before / after comparison."""
+    seen = seen if seen is not None else {}
+    if depth > 8:
+        return "..."
+    if isinstance(v, ObjV):
+        if id(v) in seen:
+            return ("ref", seen[id(v)])
+        seen[id(v)] = len(seen)
+        return ("obj", v.ci.name if v.ci else "?", tuple(sorted((k, snapshot(st, x, depth + 1, seen)) for k, x in v.fields.items())))
+    if isinstance(v, DictV):
+        return ("dict", tuple((snapshot(st, k, depth + 1, seen), snapshot(st, x, depth + 1, seen)) for k, x in v.items),
+                repr(getattr(v, "opaque_updates", None)))
+    if isinstance(v, ListV):
+        return ("list", tuple(snapshot(st, x, depth + 1, seen) for x in v.items) if v.items is not None else v.tag)
+    if isinstance(v, TupleV):
+        return ("tuple", tuple(snapshot(st, x, depth + 1, seen) for x in v.items))
+    if isinstance(v, Num):
+        return ("num", st.norm(v.rf).key())
+    if isinstance(v, UnitV):
+        return ("unit", st.ufind(v.uid))
+    if isinstance(v, RateV):
+        return ("rate", id(v))
+    if isinstance(v, DateV):
+        return ("date", tuple(st.norm(x.rf).key() for x in (v.y, v.m, v.d)))
+    if isinstance(v, TypeV):
+        return ("type", v.name)
     if isinstance(v, NoneV):
         return "None"
-    if isinstance(v, TupleV):
-        return "(" + ", ".join(validity_repr(x) for x in v.items) + ")"
-    if isinstance(v, OpaqueV):
-        return v.tag
-    return repr(v)
-
-
-def period_form(v, given=None):
-    """Abstract form of a stored validity period: None / year / (year, month) / date / ?..."""
-    def comp(x, name):
-        if isinstance(x, Num) and x.kind in ("int", "bool"):
-            return "given"
-        if isinstance(x, OpaqueV) and x.tag.endswith("." + name) and "date" in getattr(getattr(x, "attr_of", None), "kinds", ()):
-            return x.tag[:-len(name) - 1]
-        return None
-    if isinstance(v, NoneV):
-        return "None"
-    if isinstance(v, TupleV):
-        if len(v.items) == 2:
-            y, m = comp(v.items[0], "year"), comp(v.items[1], "month")
-            if y is not None and y == m:
-                return "(year, month)"
-        return "?" + validity_repr(v)
-    if comp(v, "year") is not None:
-        return "year"
-    if isinstance(v, OpaqueV) and "date" in getattr(v, "kinds", ()):
-        return "date"
-    return "?" + validity_repr(v)
-
-
-def judge_writer_reader(vkind):
-    """R11.1: on every accepting path of update() the stored period has the form the reader computes for the
-    kind update() records (the reader's forms per kind are established by R11.4), and a given period is stored
-    unchanged."""
-    def judge(o):
-        st = o.state
-        if o.kind == "raise":
-            return None
-        conv, given = o.args[0], o.args[1]
-        tbl = conv.fields["_rate_dict"]
-        K = conv.fields["_type_of_validity"]
-        if not isinstance(K, TypeV) or K.name not in KINDS:
-            return ("kind of validity recorded by update is not one the reader dispatches on", repr(K))
-        for key, _val in tbl.items:
-            if not (isinstance(key, TupleV) and len(key.items) == 2):
-                return ("entry key is not (validity, currency)", repr(key))
-            p = key.items[0]
-            form = period_form(p)
-            if form != KINDS[K.name]:
-                return ("writer stores a period form the reader never computes",
-                        f"stored period {validity_repr(p)} (form {form}) under kind {K.name}; for that kind the reader "
-                        f"looks up {KINDS[K.name]}")
-            if vkind == "str":
-                n = [t.split("=")[1] for t in o.trace if t.startswith("len(split)")]
-                want = {"1": "year", "2": "(year, month)", "3": "date"}.get(n[0]) if n else None
-                if want is not None and form != want:
-                    return ("period spelling mapped to the wrong period form",
-                            f"a string of {n[0]} dash-separated part(s) is stored as {form}; contract {want}")
-            elif vkind != "tuple":      # a tuple may be re-derived from the date it was validated with
-                same = p is given or (isinstance(p, Num) and isinstance(given, Num) and st.norm(p.rf).equals(st.norm(given.rf))) \
-                    or (isinstance(p, NoneV) and isinstance(given, NoneV)) \
-                    or (isinstance(p, TupleV) and isinstance(given, TupleV) and len(p.items) == len(given.items)
-                        and all(a is b or (isinstance(a, Num) and isinstance(b, Num) and st.norm(a.rf).equals(st.norm(b.rf)))
-                                for a, b in zip(p.items, given.items)))
-                if not same:
-                    return ("given period not stored unchanged", f"given {validity_repr(given)}, stored {validity_repr(p)}")
-        return None
-    return judge
+    if isinstance(v, StrV):
+        return ("str", v.const if v.const is not None else v.tag)
+    return ("other", type(v).__name__, getattr(v, "name", None) or id(v))
 
 
 def run(prog, tier) -> Result:
     res = Result("C11")
     res.explanation = (
-        "R11.1/2: on every accepting path of update() - for None, int, tuple, date and each string spelling - the "
-        "stored period has the form ({None, year, (year, month), date}) the reader computes from a date for the "
-        "kind update() records (reader forms per kind: R11.4), a given period is stored unchanged, and the currency "
-        "component of the key is the Currency object the reader looks up. R11.3: get_rate is evaluated abstractly for all identity patterns of "
-        "(base, unit, term): the returned rate's dimensioned value equals r(term)/r(unit) with r(base) = 1, in the "
-        "requested direction, None when an entry is missing, and one for identical currencies. R11.4/6: _get_rate "
-        "performs exactly one table lookup with the key computed from the effective date (default: the configured "
-        "callable). R11.5: on every raising path of update() nothing has been written (kind mixing and invalid "
-        "entries are rejected atomically). R11.7: __call__ = reported rate x amount, None => UnitConversionError. "
-        "B1: _rate_dict/_type_of_validity have no other writer, so 'most recent entry wins' is dict semantics.")
-    res.trusted = ["dict semantics (last write wins)", "date.fromisoformat validates period spellings (stdlib)"]
-    res.assumptions = ["NOT decided: correctness of period spellings beyond their shape"]
-    cr = CaseRunner(prog, res, max_depth=8 if tier == "quick" else 12)
+        "Converters are built by evaluating the constructor and sequences of update() calls with symbolic periods, "
+        "amounts and unit multiples - validity given as None, year, (year, month), date and as text of one, two or "
+        "three dash-separated fields, currencies given as Currency or as code - and a reference model of the "
+        "history is kept beside them. R11.3: get_rate is evaluated for ordered pairs over {base, two currencies "
+        "with entries, one without} and effective dates inside the stored period, in the next period, in the same "
+        "month/day of another year: the result is the stored base rate, its inverse, the quotient of two base "
+        "rates (rounded once), None when an entry is missing for that date, one for identical currencies. "
+        "R11.1/R11.2: the same for each spelling of the period and for currencies given by code. R11.9/R11.4: "
+        "two-update histories - same period (the later entry wins) and neighbouring periods (each date sees its "
+        "own period only). R11.6: without a date the configured callable (default date.today) supplies it. "
+        "R11.5: every rejected update (invalid period, other kind of validity, invalid rate in a later spec) leaves "
+        "the evaluated converter object graph exactly as it was, and such updates are rejected. R11.7: __call__ = "
+        "reported rate x amount, UnitConversionError when there is no rate. R11.8: the fields the constructor "
+        "initialises have no writer besides the constructor and update().")
+    res.trusted = ["dict semantics (last write wins, equal keys hash alike)",
+                   "date.fromisoformat accepts exactly YYYY-MM-DD texts and date(y, m, d) the same dates (stdlib)"]
+    res.assumptions = ["texts of periods are modelled by their dash-separated fields; which digit strings the "
+                       "standard library accepts as year/month/day is not decided here"]
+    cr = CaseRunner(prog, res, max_depth=10 if tier == "quick" else 14)
     MC = lambda n: prog.method("MoneyConverter", n)
+    GET, CALL, UP = MC("get_rate"), MC("__call__"), MC("update")
 
-    # ---- R11.3 get_rate
-    def setup_gr(vtype):
-        def setup(c):
-            conv, base = mk_converter(c, prog, vtype)
-            u, t = c.unit("cu", "M"), c.unit("ct", "M")
-            return [conv, u, t, _date("effdate")], {}
-        return setup
+    PAIRS = [("base", "ca"), ("ca", "base"), ("ca", "cb"), ("cb", "ca"), ("ca", "ca"), ("base", "cn"), ("cn", "ca"), ("ca", "cn")]
+    FEW = [("base", "ca"), ("ca", "cb")]
 
-    def r_of(st, base, cur) -> RF:
-        if st.same_unit(base.uid, cur.uid) is True:
-            return RF.const(1)
-        uid = st.ufind(cur.uid)
-        return RF.atom(("ta", "tbl:" + uid)) / RF.atom(("um", "tbl:" + uid))
-
-    def judge_gr(o):
+    # ------------------------------------------------------------------ reader judges
+    def judge_rate(o):
         st = o.state
-        conv, u, t = o.args[0], o.args[1], o.args[2]
-        base = conv.fields["_base_currency"]
-        same = st.same_unit(u.uid, t.uid)
-        missing = [k for k, present in conv.fields["_rate_dict"].rate_table.items() if not present]
+        s: Scenario = st.scn
+        x, y = s.want_pair
+        d = s.eff
         if o.kind == "raise":
-            if same is True:
+            if x == y:
                 return (exc_sig(o), "contract: a rate of one for a currency and itself")
             if getattr(o.exc, "tag", None) == "rate-validation":
                 return None     # the computed rate itself is not representable (numeric clause of C09)
             return (exc_sig(o), "contract: rate or None")
         v = o.value
+        rx, ry = s.r_of(x, d), s.r_of(y, d)
+        if x == y:
+            rx = ry = RF.const(1)
         if isinstance(v, NoneV):
-            if conv.fields["_type_of_validity"] is NONE or missing:
+            if rx is None or ry is None:
                 return None
-            return ("None although all needed entries exist", "")
+            return ("None although all needed entries exist", f"pair {x}->{y}, history {s.describe()}")
         if not isinstance(v, RateV):
             return ("returns neither rate nor None", repr(v))
-        if st.same_unit(v.unit.uid, u.uid) is not True or st.same_unit(v.term.uid, t.uid) is not True:
+        if rx is None or ry is None:
+            return ("rate reported although a needed entry is missing for that date",
+                    f"pair {x}->{y}: {v!r}; history {s.describe()}")
+        if st.same_unit(v.unit.uid, s.cur[x].uid) is not True or st.same_unit(v.term.uid, s.cur[y].uid) is not True:
             return ("rate in the wrong direction / between other currencies",
-                    f"{st.ufind(v.unit.uid)}->{st.ufind(v.term.uid)}, requested {st.ufind(u.uid)}->{st.ufind(t.uid)}")
-        want = r_of(st, base, t) / r_of(st, base, u)
+                    f"{s.name_of(v.unit)}->{s.name_of(v.term)}, requested {x}->{y}")
+        want = ry / rx
         got = exact_rate(st, v)
         if not got.equals(want):
-            return ("wrong rate", f"rate {got!r}, contract r(term)/r(unit) = {want!r}")
-        if st.rnd_depth(v.ta.rf) > 1:
+            return ("wrong rate", f"rate {got!r}, contract r(term)/r(unit) = {want!r}; history {s.describe()}")
+        # a stored base rate was rounded once when it was stored; what is derived from stored rates once more
+        if st.rnd_depth(v.ta.rf) > (1 if x == "base" else 2):
             return ("derived rate rounded more than once",
                     f"stored amount {st.norm(v.ta.rf)!r}: the quotient of the base rates is rounded to six digits twice")
+        if s.explicit_date and s.dflt_calls:
+            return ("default date consulted although a date was given", "")
         return None
-    for vt in ("int", "NoneType", "tuple", "date", None):
-        cr.run("R11.3", MC("get_rate"), f"get_rate, validity kind {KINDS.get(vt, 'unset')}", setup_gr(vt), judge_gr,
-               min_paths=1 if vt is None else 6)
 
-    from ..anchors import rate_lookup
-    GETR = rate_lookup(prog)
-    # ---- R11.4 / R11.6 _get_rate: one lookup, key from the effective date / default date
-    def setup_getr(vtype, with_date):
-        def setup(c):
-            conv, base = mk_converter(c, prog, vtype)
-            return [conv, c.unit("ct", "M"), _date("effdate") if with_date else NONE], {}
-        return setup
-
-    def judge_getr(vtype, with_date):
-        d = "effdate" if with_date else "call(fn:dfltdate)"
-        want = {"int": f"{d}.year", "tuple": f"({d}.year, {d}.month)", "date": d, "NoneType": "None"}[vtype]
-
-        def judge(o):
-            st = o.state
-            reads = [e for e in st.effects if e[0] == "ratetable-read"]
-            if o.kind == "raise" and o.exc.name != "KeyError":
-                return (exc_sig(o), "contract: entry or KeyError")
-            if len(reads) != 1:
-                return ("not exactly one table lookup", f"{len(reads)} lookups")
-            key = reads[0][2]
-            if not (isinstance(key, TupleV) and len(key.items) == 2):
-                return ("lookup key is not (validity, currency)", repr(key))
-            got = validity_repr(key.items[0])
-            if got != want:
-                return ("lookup period not derived from the effective date", f"key period {got}, contract {want}")
-            if not (isinstance(key.items[1], UnitV) and st.same_unit(key.items[1].uid, o.args[1].uid) is True):
-                return ("lookup currency is not the requested currency", repr(key.items[1]))
-            return None
-        return judge
-    for vt in ("int", "tuple", "date", "NoneType"):
-        for wd in (True, False):
-            cr.run("R11.4" if wd else "R11.6", GETR,
-                   f"_get_rate kind {KINDS[vt]}, {'explicit' if wd else 'default'} date",
-                   setup_getr(vt, wd), judge_getr(vt, wd))
-    cr.run("R11.4", GETR, "_get_rate before any update", setup_getr(None, True),
-           lambda o: expect_raise(o, ["KeyError"]))
-    # constructor keeps the configured callable (default date.today)
-    init = MC("__init__")
-
-    def setup_init(given):
-        def setup(c):
-            c.new_type("M", **FLAVORS["money"])
-            me = ObjV(prog.cls("MoneyConverter"), "conv")
-            return [me, c.unit("base", "M")] + ([_date("cfg", fn=True)] if given else []), {}
-        return setup
-
-    def judge_init(given):
-        def judge(o):
-            if o.kind == "raise":
-                return (exc_sig(o), "")
-            f = o.args[0].fields
-            g = f.get("_get_dflt_effective_date")
-            if given:
-                ok = g is o.args[2]
-            else:
-                ok = isinstance(g, FuncV) and g.name == "date.today"
-            if not ok:
-                return ("default effective date callable not stored", repr(g))
-            if not isinstance(f.get("_rate_dict"), DictV) or f["_rate_dict"].items:
-                return ("rate table not initialised empty", repr(f.get("_rate_dict")))
-            if not isinstance(f.get("_type_of_validity"), NoneV):
-                return ("kind of validity not initialised to None", repr(f.get("_type_of_validity")))
-            return None
-        return judge
-    cr.run("R11.6", init, "__init__ with callable", setup_init(True), judge_init(True))
-    cr.run("R11.6", init, "__init__ default", setup_init(False), judge_init(False))
-
-    # ---- R11.7 __call__
-    def setup_call(c):
-        conv, base = mk_converter(c, prog, "int")
-        m = c.qty("money", c.unit("cu", "M"))
-        return [conv, m, c.unit("ct", "M"), _date("effdate")], {}
-
-    def judge_call(o):
+    def judge_amount(o):
         st = o.state
-        conv, m, t = o.args[0], o.args[1], o.args[2]
-        base = conv.fields["_base_currency"]
+        s: Scenario = st.scn
+        x, y = s.want_pair
+        d = s.eff
+        rx, ry = s.r_of(x, d), s.r_of(y, d)
+        if x == y:
+            rx = ry = RF.const(1)
         if o.kind == "raise":
-            if o.exc.name == "UnitConversionError" or getattr(o.exc, "tag", None) == "rate-validation":
+            if o.exc.name == "UnitConversionError":
+                if rx is None or ry is None:
+                    return None
+                return ("conversion refused although all needed entries exist", f"pair {x}->{y}")
+            if getattr(o.exc, "tag", None) == "rate-validation":
                 return None
-            if st.same_unit(m.unit.uid, t.uid) is True:
+            if x == y:
                 return (exc_sig(o), "identical currencies")
             return (exc_sig(o), "contract: amount or UnitConversionError")
-        want = st.norm(m.amount.rf) * r_of(st, base, t) / r_of(st, base, m.unit)
+        if rx is None or ry is None:
+            return ("amount reported although a needed entry is missing for that date", o.brief())
+        want = st.norm(s.money.amount.rf) * ry / rx
         v = o.value
         if not isinstance(v, Num):
             return ("returns non-number", repr(v))
@@ -268,146 +349,195 @@ def run(prog, tier) -> Result:
         if not got.equals(want):
             return ("amount is not rate x amount", f"{got!r}, contract {want!r}")
         return None
-    cr.run("R11.7", MC("__call__"), "__call__", setup_call, judge_call, min_paths=4)
 
-    # __call__ without a date: the period looked up derives from the configured callable
-    def setup_call_nodate(c):
-        conv, base = mk_converter(c, prog, "int")
-        m = c.qty("money", c.unit("cu", "M"))
-        c.st.distinct_units("cu", "ct") if False else None
-        return [conv, m, c.unit("ct", "M")], {}
+    Scenario.describe = lambda s: "; ".join(
+        f"{n}@({', '.join('*' if p is None else repr(s.st.norm(p.rf)) for p in per)})" for per, n, _t, _u in s.hist)
 
-    def judge_call_nodate(o):
-        st = o.state
-        reads = [e for e in st.effects if e[0] == "ratetable-read"]
-        for e in reads:
-            key = e[2]
-            if isinstance(key, TupleV) and len(key.items) == 2:
-                got = validity_repr(key.items[0])
-                if got != "call(fn:dfltdate).year":
-                    return ("default effective date does not come from the configured callable",
-                            f"lookup period {got}, contract call(fn:dfltdate).year")
-        return None
-    cr.run("R11.6", MC("__call__"), "__call__ without date", setup_call_nodate, judge_call_nodate, min_paths=4)
+    reader_setup = lambda *a, **k: reader_setup_for(prog, *a, **k)
 
-    # ---- R11.2 / R11.5 update: key type, atomicity
-    up = MC("update")
+    for kind in KINDS:
+        rule = "R11.1" if kind == "text" else "R11.3"
+        for pair in PAIRS:
+            if kind == "text" and pair[0] == pair[1]:
+                continue
+            cr.run(rule, GET, f"get_rate {pair[0]}->{pair[1]}, validity {kind}, date in the period",
+                   reader_setup(kind, pair, "in", "explicit"), judge_rate)
+        if kind == "None":
+            continue
+        for where in ("next", "year"):
+            if where == "year" and kind == "year":
+                continue
+            for pair in FEW:
+                cr.run("R11.4", GET, f"get_rate {pair[0]}->{pair[1]}, validity {kind}, date in another period ({where})",
+                       reader_setup(kind, pair, where, "explicit"), judge_rate)
+    # currencies given by code
+    for kind in ("year", "text"):
+        for pair in FEW:
+            cr.run("R11.2", GET, f"get_rate {pair[0]}->{pair[1]}, validity {kind}, spec currency given by code",
+                   reader_setup(kind, pair, "in", "explicit", spec_as="str"), judge_rate)
+    # default effective date
+    for kind in ("None", "year", "month", "date"):
+        for where in ("in", "next"):
+            if kind == "None" and where == "next":
+                continue
+            cr.run("R11.6", GET, f"get_rate without date, validity {kind}, configured date {'in' if where == 'in' else 'outside'} the period",
+                   reader_setup(kind, ("base", "ca"), where, "default"), judge_rate)
 
-    def setup_up(vkind, spec_cur, prior):
+    def today_setup(offset):
         def setup(c):
-            conv, base = mk_converter(c, prog, prior)
-            conv.fields["_rate_dict"] = DictV(tag="_rate_dict")
-            cur = c.unit("ct", "M") if spec_cur == "Currency" else StrV(None, "code")
-            spec = TupleV([cur, c.num("ta", "dec"), c.num("um", "int")])
-            v = {"None": NONE, "int": Num(RF.atom(("k", "year")), "int"),
-                 "tuple": TupleV([Num(RF.atom(("k", "year")), "int"), Num(RF.atom(("k", "month")), "int")]),
-                 "str": StrV(None, "period"), "date": _date("vdate"),
-                 "float": c.num("x", "float")}[vkind]
-            return [conv, v, ListV([spec])], {}
+            s = Scenario(c, prog, dflt="none")
+            Y = Num(RF.atom(("k", "today.year")) + RF.const(offset), "int")
+            s.update(Y, (Y, None, None), ["ca"])
+            s.eff = DateV("today", *(_k(f"today.{f}") for f in ("year", "month", "day")))
+            s.want_pair = ("base", "ca")
+            s.explicit_date = False
+            return [s.conv, s.cur["base"], s.cur["ca"]], {}
+        return setup
+    cr.run("R11.6", GET, "get_rate without date, no callable configured: today, rates for this year", today_setup(0), judge_rate)
+    cr.run("R11.6", GET, "get_rate without date, no callable configured: today, rates for next year", today_setup(1), judge_rate)
+
+    # ------------------------------------------------------------------ __call__
+    for kind in ("None", "year"):
+        for pair in [("base", "ca"), ("ca", "base"), ("ca", "cb"), ("base", "cn"), ("ca", "ca")]:
+            cr.run("R11.7", CALL, f"__call__ {pair[0]}->{pair[1]}, validity {kind}",
+                   reader_setup(kind, pair, "in", "explicit", call=True), judge_amount)
+    cr.run("R11.7", CALL, "__call__ base->ca, date in another period",
+           reader_setup("month", ("base", "ca"), "next", "explicit", call=True), judge_amount)
+    cr.run("R11.6", CALL, "__call__ without date", reader_setup("year", ("base", "ca"), "in", "default", call=True), judge_amount)
+    cr.run("R11.6", CALL, "__call__ without date, configured date outside the period",
+           reader_setup("year", ("base", "ca"), "next", "default", call=True), judge_amount)
+
+    # ------------------------------------------------------------------ two updates
+    def two_setup(kind, second, read, pair):
+        """second: same / next period; read: first / second period"""
+        def setup(c):
+            s = Scenario(c, prog)
+            v1, p1 = s.validity(kind, "p")
+            s.update(v1, p1, ["ca", "cb"])
+            if second == "same":
+                v2, p2 = s.validity(kind, "p")
+            else:
+                v2, p2 = s.shifted(kind, "q", "p", "next")
+            s.update(v2, p2, ["ca"])
+            s.eff = s.date_in(p1 if read == "first" else p2)
+            s.want_pair = pair
+            s.explicit_date = True
+            s.dflt_date[0] = None
+            return [s.conv, s.cur[pair[0]], s.cur[pair[1]], s.eff], {}
+        return setup
+    for kind in ("None", "year", "month", "date"):
+        for pair in (("base", "ca"), ("ca", "cb")):
+            cr.run("R11.9", GET, f"two updates of the same period (validity {kind}), {pair[0]}->{pair[1]}",
+                   two_setup(kind, "same", "first", pair), judge_rate)
+        if kind == "None":
+            continue
+        for read in ("first", "second"):
+            for pair in (("base", "ca"), ("ca", "cb"), ("base", "cb")):
+                cr.run("R11.4", GET, f"updates for two periods (validity {kind}), date in the {read} one, {pair[0]}->{pair[1]}",
+                       two_setup(kind, "next", read, pair), judge_rate)
+
+    # ------------------------------------------------------------------ rejected updates change nothing
+    def up_setup(prior, vkind, bad_spec):
+        def setup(c):
+            s = Scenario(c, prog)
+            if prior is not None:
+                v0, p0 = s.validity(prior, "p")
+                s.update(v0, p0, ["ca"])
+            s.before = snapshot(c.st, s.conv)
+            v, _p = s.validity(vkind, "q")
+            s.vkind, s.prior = vkind, prior
+            good = TupleV([s.cur["cb"], c.num("ta_n", "dec"), c.num("um_n", "int")])
+            specs = [good]
+            if bad_spec == "amount":
+                specs.append(TupleV([s.cur["ca"], Num(RF.const(-5), "int"), Num(RF.const(1), "int")]))
+            elif bad_spec == "base":
+                specs.append(TupleV([s.cur["base"], c.num("ta_b", "dec"), c.num("um_b", "int")]))
+            elif bad_spec == "symbolic":
+                specs.append(TupleV([s.cur["ca"], c.num("ta_m", "dec"), c.num("um_m", "int")]))
+            s.bad_spec = bad_spec
+            return [s.conv, v, ListV(specs)], {}
         return setup
 
-    def judge_up(vkind, spec_cur):
-        def judge(o):
-            st = o.state
-            conv = o.args[0]
-            tbl = conv.fields["_rate_dict"]
-            wrote_self = [e for e in st.effects if e[0] == "setattr" and e[1] is conv]
-            wrote_tbl = bool(tbl.items) or getattr(tbl, "opaque_updates", None)
-            if o.kind == "raise":
-                if o.exc.name not in ("ValueError", "TypeError"):
-                    return (exc_sig(o), "contract: ValueError")
-                if wrote_self or wrote_tbl:
-                    what = [e[2] for e in wrote_self] + (["_rate_dict"] if wrote_tbl else [])
-                    return ("update rejected after the converter was changed",
-                            f"{exc_sig(o)} after writing {what}")
-                return None
-            if vkind == "float":
-                return ("invalid validity accepted", o.brief())
-            if not tbl.items:
-                return ("no entry stored", "")
-            key, val = tbl.items[-1]
-            if not (isinstance(key, TupleV) and len(key.items) == 2):
-                return ("entry key is not (validity, currency)", repr(key))
-            if not isinstance(val, RateV):
-                return ("entry value is not an exchange rate", repr(val))
-            kc = key.items[1]
-            if not (isinstance(kc, UnitV) and st.same_unit(kc.uid, val.term.uid) is True):
-                return ("entry keyed by the raw currency spec, not by the Currency the reader looks up",
-                        f"key currency {kc!r}, rate's term currency {val.term!r}")
-            if st.same_unit(val.unit.uid, conv.fields["_base_currency"].uid) is not True:
-                return ("stored rate does not start from the base currency", repr(val))
-            ta, um = RF.atom(("k", "ta")), RF.atom(("k", "um"))
-            if not exact_rate(st, val).equals(ta / um):
-                return ("stored rate differs from the given amount / multiple", repr(exact_rate(st, val)))
-            return None
-        return judge
-    for vk in ("None", "int", "tuple", "str", "date", "float"):
-        for sc in ("Currency", "str"):
-            for prior in (None, "int"):
-                cr.run("R11.5" if sc == "Currency" else "R11.2", up,
-                       f"update validity {vk}, spec currency {sc}, {'first' if prior is None else 'later'} update",
-                       setup_up(vk, sc, prior), judge_up(vk, sc))
-    # R11.1: writer / reader agreement on period forms, decided on the evaluated table entries
-    for vk in ("None", "int", "tuple", "str", "date"):
-        for prior in (None, {"None": "NoneType", "str": "int"}.get(vk, vk)):
-            cr.run("R11.1", up, f"writer/reader agreement, validity {vk}, {'first' if prior is None else 'later'} update",
-                   setup_up(vk, "Currency", prior), judge_writer_reader(vk), min_paths=2)
-    # R11.9: a later update of the same (period, currency) replaces the earlier rate
-    from ..engine_a import run_body
-    from ..report import Violation
+    KIND_OF = {"None": "None", "year": "year", "month": "month", "date": "date"}
 
-    def twice_body(I, c):
-        conv, base = mk_converter(c, prog, None)
-        conv.fields["_rate_dict"] = DictV(tag="_rate_dict")
-        cur = c.unit("ct", "M")
-        v = Num(RF.atom(("k", "year")), "int")
-        I.call_function(up, [conv, v, ListV([TupleV([cur, c.num("ta1", "dec"), c.num("um1", "int")])])], {})
-        I.call_function(up, [conv, v, ListV([TupleV([cur, c.num("ta2", "dec"), c.num("um2", "int")])])], {})
-        tbl = conv.fields["_rate_dict"]
-        c.st.cur = cur
-        return I.models.dict_get(tbl, TupleV([v, cur]), None)
-    outs = run_body(prog, twice_body, max_depth=12)
-    res.paths += len(outs)
-    fails = []
-    n_ok = 0
-    for o in outs:
+    def judge_up(o):
+        st = o.state
+        s: Scenario = st.scn
+        after = snapshot(st, s.conv)
         if o.kind == "raise":
-            if o.exc.name in ("ValueError", "TypeError"):
-                continue
-            fails.append(Violation("R11.9", "MoneyConverter.update", "same key updated twice", exc_sig(o), "", list(o.trace)))
-            continue
-        n_ok += 1
-        v = o.value
-        want = RF.atom(("k", "ta2")) / RF.atom(("k", "um2"))
-        if not isinstance(v, RateV) or not exact_rate(o.state, v).equals(want):
-            fails.append(Violation("R11.9", "MoneyConverter.update", "same key updated twice",
-                                   "an earlier entry survives a later update of the same key",
-                                   f"lookup after two updates gives {v!r}; contract: the rate of the second update",
-                                   list(o.trace)))
-    if n_ok == 0:
-        fails.append(Violation("R11.9", "MoneyConverter.update", "same key updated twice", "no accepting path", ""))
-    res.obligations += 1
-    res.evaluations += max(1, len(outs))
-    res.rules["R11.9"] = res.rules.get("R11.9", 0) + 1
-    res.nontrivial_keys.add(("R11.9", "MoneyConverter.update", "same key updated twice"))
-    if not fails:
-        res.discharged += 1
-    res.violations.extend(fails)
+            if o.exc.name not in ("ValueError", "TypeError"):
+                return (exc_sig(o), "contract: ValueError")
+            if after != s.before:
+                return ("update rejected after the converter was changed",
+                        f"{exc_sig(o)}; converter before {s.before!r}, after {after!r}"[:600])
+            return None
+        if s.vkind == "float":
+            return ("invalid validity accepted", o.brief())
+        if s.bad_spec in ("amount", "base"):
+            return ("invalid rate specification accepted", o.brief())
+        if s.prior is not None and s.vkind != "text":
+            if KIND_OF[s.vkind] != KIND_OF[s.prior]:
+                return ("mixing kinds of validity accepted", f"first update {s.prior}, then {s.vkind}")
+        if s.prior is not None and s.vkind == "text":
+            nf = getattr(o.args[1], "n_fields", None)
+            tk = {1: "year", 2: "month", 3: "date"}.get(nf[1]) if nf else None
+            if tk != s.prior:
+                return ("mixing kinds of validity accepted", f"first update {s.prior}, then a text of {nf} fields")
+        if after == s.before:
+            return ("accepted update stored nothing", "")
+        return None
+    for vk in ("None", "year", "month", "date", "text", "float"):
+        for prior in (None, "year", "date"):
+            for bad in ("none", "symbolic") + (("amount", "base") if vk in ("year", "None") else ()):
+                cr.run("R11.5", UP, f"update validity {vk} after {'no' if prior is None else 'a ' + prior} update, "
+                       f"{'valid specs' if bad == 'none' else 'second spec: ' + bad}", up_setup(prior, vk, bad), judge_up)
 
-    # ---- B1 ownership
+    # a rejected first update does not fix the kind of validity: a later update of another kind is accepted and read
+    def after_reject_setup(c):
+        s = Scenario(c, prog)
+        v0, _p0 = s.validity("year", "p")
+        bad = ListV([TupleV([s.cur["ca"], c.num("ta_x", "dec"), c.num("um_x", "int")]),
+                     TupleV([s.cur["base"], c.num("ta_b", "dec"), c.num("um_b", "int")])])
+        with frame(s.I, prog):
+            try:
+                s.I.call_function(UP, [s.conv, v0, bad], {})
+                raise Infeasible        # acceptance of that update is reported by R11.5 above
+            except AbsRaise:
+                pass
+        v1, p1 = s.validity("month", "q")
+        s.update(v1, p1, ["ca"], must_accept=False) or s.__setattr__("refused", True)
+        s.eff = s.date_in(p1)
+        s.want_pair = ("base", "ca")
+        s.explicit_date = True
+        return [s.conv, s.cur["base"], s.cur["ca"], s.eff], {}
+
+    def judge_after_reject(o):
+        s = o.state.scn
+        if getattr(s, "refused", False):
+            # rate-validation forks of the second update end here as well: only a refusal for the kind is an error
+            return None
+        return judge_rate(o)
+    cr.run("R11.5", GET, "rejected first update, then an update of another kind", after_reject_setup, judge_after_reject)
+
+    # ------------------------------------------------------------------ B1 ownership of the converter's fields
     writes = inventory(prog, ["quantity.money"])
     cg = CallGraph(prog)
-    n = len(check_ownership(res, "R11.8", writes, "_rate_dict",
-                            {"MoneyConverter.__init__": {"="}, "MoneyConverter.update": {"*"}}, cg))
-    n += len(check_ownership(res, "R11.8", writes, "_type_of_validity",
-                             {"MoneyConverter.__init__": {"="}, "MoneyConverter.update": {"="}}, cg))
+    fields = sorted({w.state for w in writes if w.func == "MoneyConverter.__init__" and w.kind == "attr-store"})
+    if len(fields) < 2:
+        raise AnalysisError(f"R11.8: constructor initialises {len(fields)} fields (at least 2 expected)")
+    n = 0
+    for f in fields:
+        n += len(check_ownership(res, "R11.8", writes, f,
+                                 {"MoneyConverter.__init__": {"*"}, "MoneyConverter.update": {"*"}}, cg))
     if n < 2:
         raise AnalysisError(f"R11.8: {n} writes of the converter state found (at least 2 expected)")
 
-    res.require("R11.1", 6)
-    res.require("R11.3", 5)
-    res.require("R11.4", 5)
-    res.require("R11.6", 6)
-    res.require("R11.5", 12)
-    res.require("R11.2", 12)
+    res.require("R11.1", 7)
+    res.require("R11.2", 4)
+    res.require("R11.3", 32)
+    res.require("R11.4", 20)
+    res.require("R11.5", 30)
+    res.require("R11.6", 9)
+    res.require("R11.7", 10)
+    res.require("R11.9", 8)
     return res
